@@ -34,7 +34,8 @@ def budget(tier):
 def _case(draw, tier):
     m, t, prss = draw(progs.config(min_m=2, max_m=5 if tier == 'quick' else 7))
     l = draw(st.sampled_from([4, 6, 8, 12]))
-    nodes = draw(progs.int_program(m, l, max_nodes=6 if tier == 'quick' else 12, heavy=False, awaits=True))
+    nodes = draw(progs.int_program(m, l, max_nodes=6 if tier == 'quick' else 12, heavy=False, awaits=True,
+                                   boom=draw(st.integers(0, 3)) == 0))
     if draw(st.booleans()):
         nodes = nodes + [['barrier']]  # a barrier while everything started so far may still be pending
     sched = draw(progs.schedule(m))
